@@ -68,6 +68,11 @@ def struct_only_sets():
     sets.append(("padded-ref", [V("k1", "alpha-1", s, ref="  raw:alpha-1 ")]))
     sets.append(("env-ref", [V("k1", "from-env", s, ref="env:VERIF_C17_SECRET")]))
     sets.append(("duplicate-id", [V("k1", "alpha-1", s), V("k1", "beta-2", s)]))
+    # secret VALUES with white space at their edges (a variable provisioned from a file keeps its final newline; a blank after `raw:`):
+    # the key is the value secrets.LoadRef yields, byte for byte - the verifying side loads the same reference
+    sets.append(("env-trailing-newline", [V("k1", "nl-secret\n", s, ref="env:VERIF_C17_NL")]))
+    sets.append(("env-spaced", [V("k1", "  spaced \t", s, ref="env:VERIF_C17_SP"), V("k0", "alpha-1", s - h, s)]))
+    sets.append(("raw-leading-blank", [V("k1", " lead-blank", s, ref="raw: lead-blank")]))
     return sets
 
 
@@ -243,7 +248,7 @@ def make_case(rng, name, vs, selection, now, via, idx):
     c = {"via": via, "secret_ref": "", "versions": vs, "selection": selection, "sig_header": "", "ts_header": "",
          "now": ts(now), "method": METHODS[idx % len(METHODS)] if rng.random() < 0.5 else "POST",
          "path_query": rng.choice(PATHS) if rng.random() < 0.6 else "/hook",
-         "body_hex": rng.choice(BODIES).hex(), "headers": {}, "env": {"VERIF_C17_SECRET": "from-env"}, "_set": name}
+         "body_hex": rng.choice(BODIES).hex(), "headers": {}, "env": {"VERIF_C17_SECRET": "from-env", "VERIF_C17_NL": "nl-secret\n", "VERIF_C17_SP": "  spaced \t"}, "_set": name}
     if via == "struct":
         c["sig_header"], c["ts_header"] = DEF_SIG, DEF_TS
         if rng.random() < 0.15:
